@@ -138,11 +138,13 @@ type sim struct {
 	gen *core.Genesis
 	b   *chainkit.Builder
 
-	blocks []*types.Block
-	crits  []string
-	dead   bool // a node died in logging.Crit: stop generating
+	blocks      []*types.Block
+	crits       []string
+	dead        bool // a node died in logging.Crit: stop generating
+	reportTaint bool // C06: report executions that hit a state database error (see taintCheck)
 
-	deadStops []func() // Stop calls of nodes that died inside a stimulus (may block forever)
+	panicked  *kit.BubblePanic // a panic of the code under test inside a stimulus (re-raised after clean-up)
+	deadStops []func()         // Stop calls of nodes that died inside a stimulus (may block forever)
 
 	intents map[common.Hash]*intent // what each submitted transaction asked for
 	escrow  *big.Int                // Σ value detained by applied create/deposit/delegation-add transactions of the running period
@@ -165,7 +167,7 @@ func (s *sim) do(f func()) bool {
 			// the stack it happened on (kit classifies panics by their first frame);
 			// runtime.Goexit (simulated Crit) makes recover return nil
 			if v := recover(); v != nil {
-				done <- res{false, &kit.BubblePanic{Val: v, Stack: string(debug.Stack())}}
+				done <- res{false, &kit.BubblePanic{Val: v, Stack: panicStack(string(debug.Stack()))}}
 				return
 			}
 			done <- res{ok, nil}
@@ -175,7 +177,14 @@ func (s *sim) do(f func()) bool {
 	}()
 	x := <-done
 	if x.bp != nil {
-		panic(x.bp)
+		// the node the stimulus ran in is dead like after a Crit (its locks may be held):
+		// stop generating, clean up, and re-raise the panic at the end of the run
+		if s.panicked == nil {
+			s.panicked = x.bp
+		}
+		s.dead = true
+		s.r.Logf("PANIC in a stimulus: %v", x.bp.Val)
+		return false
 	}
 	return x.ok
 }
@@ -222,6 +231,9 @@ func runSim(r *kit.Run, body func(s *sim)) {
 			kit.Wait()
 		}()
 		body(s)
+		if s.panicked != nil {
+			panic(s.panicked)
+		}
 	})
 	if err != nil {
 		if len(s.crits) > 0 && strings.Contains(err.Error(), "deadlock") {
@@ -268,3 +280,19 @@ func (s *sim) nextBlock() (*types.Block, error) {
 	return blk, nil
 }
 
+// panicStack cuts a stack taken inside a deferred recover down to the frames of the panicking
+// code (everything below the runtime's panic frame), so that kit.PanicInRepo sees the frame in
+// which the panic happened first, not this package's deferred function.
+func panicStack(st string) string {
+	if i := strings.Index(st, "\npanic("); i >= 0 {
+		rest := st[i+1:]
+		// drop the "panic(...)" line and its file line
+		for k := 0; k < 2; k++ {
+			if j := strings.IndexByte(rest, '\n'); j >= 0 {
+				rest = rest[j+1:]
+			}
+		}
+		return rest
+	}
+	return st
+}
